@@ -199,6 +199,26 @@ pub fn gen(tier: &str, rng: &mut Rng, emit: &mut dyn FnMut(String)) {
         }
         emit(format!("spat {m} {x}"));
     }
+    // split_at takes a raw BYTE offset: every offset of pointers whose tokens contain 2-, 3- and 4-byte characters (an offset
+    // inside a character must give None, never reach a str slicing primitive that panics off a char boundary)
+    for p in ["/é", "/aé/€b", "/€//𝄞x", "/~0é~1/", "/é/é/é"] {
+        let x = hex(p.as_bytes());
+        for k in 0..=p.len() + 1 {
+            emit(format!("spat {k} {x}"));
+        }
+        for a in 0..4usize {
+            emit(format!("get {a} {x}"));
+            emit(format!("rf {a} {x}"));
+            emit(format!("rt {a} {x}"));
+            emit(format!("rti {a} {x}"));
+            for b in 0..4usize {
+                emit(format!("rr {a} {b} {x}"));
+                emit(format!("ri {a} {b} {x}"));
+                emit(format!("rb e{a} i{b} {x}"));
+                emit(format!("rb i{a} e{b} {x}"));
+            }
+        }
+    }
     // texts beyond the small scope as tokens of a 3-token pointer; every range form around them
     for (i, s) in boundary_texts(tier).into_iter().enumerate() {
         if i % 2 == 1 && tier != "thorough" {
